@@ -205,18 +205,20 @@ class DocGen:
         inner = ''.join(self.inline(d + 1, in_link=True) for _ in range(r.randint(0, 3)))
         return f'<w:hyperlink {a}>{inner}</w:hyperlink>'
 
-    def comment_marker(self):
+    def comment_marker(self, bare=False):
+        """bare: range markers only (between the rows of a table / the cells of a row no run may stand)"""
         r = self.r; self.c('comment_marker')
+        ref = (lambda i: '') if bare else (lambda i: f'<w:r><w:commentReference w:id="{i}"/></w:r>')
         k = r.random()
         if k < 0.45 or not self.open_ranges:
             i = self.next_comment; self.next_comment += 1
             self.comment_ids.append(i)
             if r.random() < 0.2:      # an empty range
-                return f'<w:commentRangeStart w:id="{i}"/><w:commentRangeEnd w:id="{i}"/><w:r><w:commentReference w:id="{i}"/></w:r>'
+                return f'<w:commentRangeStart w:id="{i}"/><w:commentRangeEnd w:id="{i}"/>' + ref(i)
             self.open_ranges.append(i)
             return f'<w:commentRangeStart w:id="{i}"/>'
         i = self.open_ranges.pop(r.randrange(len(self.open_ranges)))
-        return f'<w:commentRangeEnd w:id="{i}"/><w:r><w:commentReference w:id="{i}"/></w:r>'
+        return f'<w:commentRangeEnd w:id="{i}"/>' + ref(i)
 
     def inline(self, d=0, in_link=False):
         r = self.r; P = self.p
@@ -237,8 +239,8 @@ class DocGen:
             return r.choice(['<w:bookmarkStart w:id="1" w:name="bm"/>', '<w:bookmarkEnd w:id="1"/>', '<w:proofErr w:type="gramStart"/>', '<w:proofErr w:type="spellEnd"/>',
                              '<w:permEnd w:id="3"/>', '<w:moveFromRangeStart w:id="5" w:name="m"/>'])
         if kind == 'ins':
-            t = r.choice(['ins', 'moveTo', 'smartTag', 'del', 'moveFrom'] if self.p.get('tracked_deletions', True) else ['ins', 'moveTo', 'smartTag'])
-            a = ' w:element="e"' if t == 'smartTag' else ' w:id="3" w:author="a"'
+            t = r.choice(['ins', 'moveTo', 'smartTag', 'del', 'moveFrom', 'dir', 'bdo', 'customXml'] if self.p.get('tracked_deletions', True) else ['ins', 'moveTo', 'smartTag'])
+            a = ' w:element="e"' if t in ('smartTag', 'customXml') else ' w:val="rtl"' if t in ('dir', 'bdo') else ' w:id="3" w:author="a"'
             if t == 'del':      # deleted text is w:delText: not content
                 return f'<w:del{a}><w:r>{self.rpr()}<w:delText xml:space="preserve">deleted text</w:delText></w:r></w:del>'
             return f'<w:{t}{a}>' + self.run(d, in_link=in_link) + f'</w:{t}>'
@@ -303,8 +305,10 @@ class DocGen:
                 trpr = r.choice(['<w:trPr><w:trPrChange w:id="40" w:author="a"><w:trPr><w:gridBefore w:val="1"/><w:gridAfter w:val="1"/></w:trPr></w:trPrChange></w:trPr>',
                                  '<w:trPr><w:ins w:id="41" w:author="a"/></w:trPr>', '<w:trPr><w:del w:id="42" w:author="a"/></w:trPr>'])
                 self.feat.add('tracked_property_change')
+            if self.coin('p_comment_marker') and not self.p.get('no_marker_between_cells'): out += self.comment_marker(bare=True); self.feat.add('marker_between_rows_or_cells')
             out += f'<w:tr>{trpr}'
             for j in range(self.rint('cells')):
+                if self.coin('p_comment_marker') and not self.p.get('no_marker_between_cells'): out += self.comment_marker(bare=True); self.feat.add('marker_between_rows_or_cells')
                 pr = ''
                 if self.coin('p_span'): pr += f'<w:gridSpan w:val="{r.randint(1, 3)}"/>'; self.feat.add('gridSpan')
                 cont_cell = False
